@@ -63,7 +63,7 @@ fn props() -> Vec<PropDef> {
 		p!("C14", "exploration", c14, part),
 		p!("C15", "exploration", c15, part),
 		p!("C16", "exploration", c16),
-		p!("C17", "exploration", c17),
+		p!("C17", "exploration", c17, part),
 		p!("C18", "exploration", c18, part),
 		p!("C19", "exploration", c19, part),
 		p!("C20", "exploration", c20),
